@@ -43,18 +43,16 @@ def combinationsK (ops : CutoffOps) (x : CutoffIn) (k : Nat) : List (List Nat) :
 def combinations (ops : CutoffOps) (x : CutoffIn) (k : Nat) : List (List Nat) :=
   if k == 2 then x.combinations2 ops else x.combinationsK ops k
 
-/-- `nonzero_atomic_indices_fc{n}` as a Boolean array over flattened atom tuples -/
-def nonzeroAtomic (ops : CutoffOps) (x : CutoffIn) (n : Nat) : Array Bool := Id.run do
-  let mut out := Array.replicate (x.N ^ n) false
-  for i in List.range x.N do
-    let nb := x.neighbors ops i
+/-- `nonzero_atomic_indices_fc{n}` as a Boolean array over flattened atom tuples.
+    Closed form (the Python loop only ever sets entries to True, so the order of effects is irrelevant):
+    entry `(i, j, k, ..)` is set iff `j, k, ..` are neighbours of `i` and pass the pair tests. -/
+def nonzeroAtomic (ops : CutoffOps) (x : CutoffIn) (n : Nat) : Array Bool :=
+  Array.ofFn (n := x.N ^ n) (fun t =>
+    let atoms := unflat x.N n t.val
+    let i := atoms.headD 0
+    let rest := atoms.drop 1
     let tests := if n == 3 then ops.nonzero3 else if n == 4 then ops.nonzero4 else []
-    -- itertools.product(jlist, ..., jlist) (n-1 factors)
-    let prod := (tuples nb.length (n - 1)).map (fun ps => ps.map (fun p => nb.getD p 0))
-    for t in prod do
-      if x.pairsOK tests t then
-        out := out.setIfInBounds (flat x.N (i :: t)) true
-  return out
+    rest.all (fun j => (x.neighbors ops i).contains j) && x.pairsOK tests rest)
 
 end CutoffIn
 
